@@ -329,7 +329,7 @@ pub fn run_plan(w: &str) -> i32 {
 /// C14: right after a successful run, the same command again transfers nothing and changes nothing (bytes and whole-second
 /// mtimes), in this direction. Source mtimes include a sub-second part, the epoch itself and a far-future value.
 /// root directory names a shell would trip over (quotes of both kinds, a backslash, a space, a dollar sign)
-pub const ROOTS: [(&str, &str); 4] = [("src", "dst"), ("the source's", "bob's backup"), ("src \"quoted\" $HOME", "back\\slash dst"), ("src", "it's 'twice' quoted")];
+pub const ROOTS: [(&str, &str); 5] = [("src", "dst"), ("src:a", "dst:with:colons"), ("the source's", "bob's backup"), ("src \"quoted\" $HOME", "back\\slash dst"), ("src", "it's 'twice' quoted")];
 pub fn second_run_is_noop(dir: &str) -> Option<String> { for ri in 0..ROOTS.len() { if let Some(w) = second_run_is_noop_r(dir, ri) { return Some(w); } } None }
 pub fn second_run_is_noop_r(dir: &str, ri: usize) -> Option<String> {
     let env = Env::new(&format!("noop{dir}{ri}"))?;
